@@ -8,3 +8,5 @@ pub assume_specification [i128::unsigned_abs] (x: i128) -> (r: u128)
     ensures r as int == if x >= 0 { x as int } else { -(x as int) };
 pub assume_specification [<i64 as TryFrom<u64>>::try_from] (x: u64) -> (r: std::result::Result<i64, <i64 as TryFrom<u64>>::Error>)
     ensures r.is_ok() <==> x <= i64::MAX, r matches Ok(v) ==> v == x;
+pub assume_specification [i64::wrapping_neg] (x: i64) -> (r: i64)
+    ensures r == (if x == i64::MIN { i64::MIN } else { (-(x as int)) as i64 });
